@@ -58,6 +58,22 @@ func canonSite(e rapid.VerifError) (string, int) {
 	id := 0
 	if m := reTramp.FindStringSubmatch(tb); m != nil {
 		id, _ = strconv.Atoi(m[1])
+		// recursion depth above the innermost trampoline: frames of main.recurse that called itself
+		rest := tb[strings.Index(tb, m[0]):]
+		depth := 0
+		for _, ln := range strings.Split(rest, "\n")[1:] {
+			if strings.Contains(ln, "main.(*Program).exec.func") {
+				continue // the closure passed to recurse
+			}
+			if strings.HasSuffix(ln, "in main.recurse") {
+				depth++
+				continue
+			}
+			break
+		}
+		if depth > 0 {
+			id += 100 * (depth - 1)
+		}
 	}
 	m := canonMsg(e.Kind, e.Msg)
 	lines := strings.Split(tb, "\n")
